@@ -92,7 +92,7 @@ var specs = map[string]*checkSpec{
 		StateDef: "distinct command lines / web requests exercised",
 		Assume:   []string{"pointer-keyed maps get their canonical order from first-insertion stamps (instrumented inserts); unstamped pointer keys are counted in stats.unstamped and probes.unstamped_pointer_keys", "the scripted dot tool is a deterministic function of its whole input"}},
 	"C19": {Prop: "C19", Engine: "c19", Pkg: "internal/driver", Level: "fault_enumeration", QuickS: 50, ThorS: 1200,
-		Rule:     "cases are seeded histories of save/delete/render/clone requests against the real web handlers in three modes: sequential histories checked step by step against an independent model of settings.json; one operation after a seeded prefix re-executed once per crash point (before/after every simulated system call and after every byte of every write) and per I/O error (ENOSPC/EIO/EACCES, short writes at every byte), each followed by restart and a liveness probe; 2-3 concurrent clients under the seeded scheduler checked by exact linearizability search. A case is distinct by (mode, initial state, operations, context-switch signature) and non-trivial if at least one saved configuration existed or was created and, for the fault mode, at least one fault fired, for the concurrent mode, at least two requests overlapped",
+		Rule:     "cases are seeded histories of save/delete/render/clone requests against the real web handlers in three modes: sequential histories checked step by step against an independent model of settings.json; one operation after a seeded prefix re-executed once per crash point (before/after every simulated system call and after every byte of every write) and per I/O error (ENOSPC/EIO/EACCES, short writes at every byte), each followed by restart and a liveness probe; 2-3 concurrent clients under the seeded scheduler checked by exact linearizability search, optionally killed at a seeded I/O call (acknowledged requests must survive, in-flight ones may or may not have taken effect); and, for two clients with one request each, systematic enumeration of EVERY schedule with at most one (quick) / two (thorough) preemptive context switches at sync and I/O points (stateless depth-first search over the choice tape; probes.schedule_space_exhausted_* counts the workloads whose bounded space was run completely). A case is distinct by (mode, initial state, operations, context-switch signature) and non-trivial if at least one saved configuration existed or was created and, for the fault mode, at least one fault fired, for the concurrent mode, at least two requests overlapped",
 		StateDef: "distinct settings.json states (decoded by the engine's own reader) observed after an operation, fault or crash",
 		Assume:   []string{"kill model: completed system calls survive, the interrupted write keeps its first k bytes; power loss (un-fsynced data vanishing) is not modelled because C19 speaks of pprof being killed and of failing writes", "URL round trip is checked with the process configuration at its defaults (makeURL elides defaults relative to the current configuration by design)", "os.Rename is atomic (POSIX)"}},
 }
